@@ -138,13 +138,8 @@ theorem C09_jobs_noninterference (jobs : List Job) (sched : List (Fin jobs.lengt
 fails, and so do both conclusions.  (Repaired in /repo by a `fix:` commit; the inventory no
 longer lists the buffer.) -/
 
-/-- two threads, separators `;` and `,`, both given the word `a,b;c` -/
-def defectJobs : List Job := [⟨[';'], [(0, "a,b;c".toList)]⟩, ⟨[','], [(0, "a,b;c".toList)]⟩]
-
-def defectProgs : Fin 2 → Prog HCell HVal := fun i => (defectJobs[i]).prog false i.val
-
-/-- write buffer (0), write buffer (1), tokenise (0), tokenise (1) -/
-def defectSched : List (Fin 2) := [0, 1, 0, 1]
+-- `defectJobs` (two threads, separators `;` and `,`, both given the word `a,b;c`), `defectProgs` (their
+-- pre-fix programs), `defectSched` = [0, 1, 0, 1] and `fixedProgs` are defined in Model/Interleave.lean
 
 /-- With the static buffer there is a complete schedule after which thread 0's destination
 differs from its run alone: it has split its value at thread 1's separator. -/
@@ -165,9 +160,6 @@ theorem C09_static_buffer_races :
   exact ⟨by decide, rfl, Or.inl rfl⟩
 
 /-! ### non-vacuity -/
-
-/-- the repaired programs for the same two jobs -/
-def fixedProgs : Fin 2 → Prog HCell HVal := fun i => (defectJobs[i]).prog true i.val
 
 /-- the hypotheses of `C09_noninterference` hold for a concrete two-thread workload with a
 concrete complete schedule, and the conclusion is the expected split -/
